@@ -495,6 +495,12 @@ def c18d(tree, ob):
     if isinstance(val, ast.BoolOp) and isinstance(val.op, ast.Or):
         ob.violate(SESS, fv.qual, src(r)[:100], 'idle predicate is a disjunction', r)
         return
+    # every conjunct is one condition: a negated group ("not (a and b)") is true as soon as ONE of its members is empty
+    for sub in ast.walk(val):
+        if isinstance(sub, ast.UnaryOp) and isinstance(sub.op, ast.Not) and isinstance(norm.strip(sub.operand), ast.BoolOp):
+            ob.violate(SESS, fv.qual, src(sub)[:80], 'the idle predicate negates a group of conditions: it is already true when only one of the queues in the group is empty '
+                       '(a transfer awaiting its acknowledgement does not keep a terminating session open)', sub, sure=True)
+            return
     atoms = set(norm.all_atoms(val))
     want = [('Messenger.is_sess_idle(self)', True), ('self._rx_tmp is None', True), ('self._tx_tmp is None', True),
             ('self._tx_pend_start', False), ('self._tx_pend_ack', False)]
